@@ -3,13 +3,18 @@
 (* Annotation sites and the erasure universe of C08.                       *)
 (*                                                                         *)
 (* An annotation SITE of a program is (i) a variable definition whose      *)
-(* value is not a function literal and that carries a type, (ii) a         *)
-(* parameter of non-function type that carries a type, (iii) the return    *)
-(* type of a value-returning function.  (Function-typed parameters and     *)
-(* `void` returns are not optional in Sylt's surface syntax and are no     *)
-(* sites.)  A VARIANT of a program is a choice, per site, of writing the   *)
-(* annotation or not.  The property: every variant is accepted and all     *)
-(* variants compile to the same bytes.                                     *)
+(* value is not a function LITERAL and that carries a type - a definition  *)
+(* whose value is function-typed (the result of a call, an alias, a blob   *)
+(* method, ...) with its `fn` / `pu` annotation is a site like any other -,*)
+(* (ii) a parameter of non-function type that carries a type, (iii) the    *)
+(* return type of a value-returning function.  No sites, because Sylt's    *)
+(* surface syntax or its call rule make them mandatory: function-typed     *)
+(* parameters, `void` returns, and parameters marked `keep` (a function    *)
+(* value reached through the parameter is called in the body; a call is    *)
+(* typed where it is written, so the callee's type must be known there -   *)
+(* see SyltAnnotFam!PK).  A VARIANT of a program is a choice, per site, of *)
+(* writing the annotation or not.  The property: every variant is accepted *)
+(* and all variants compile to the same bytes.                             *)
 (*                                                                         *)
 (* The dynamic semantics never reads a `ty` field, so erasure cannot       *)
 (* change what a program denotes; what is checked against the code is      *)
@@ -21,7 +26,7 @@ HasTy(t) == t.k # "tnone"
 
 (* TLC passes operator arguments unevaluated and, inside RECURSIVE operators, evaluates them again at every use, so
    a chain of `seq[i]`, `e.body`, ... is walked again and again.  Bind evaluates its argument once, by binding it as
-   the only element of a set; the counting operators below go through it at every node (measured: 4x faster). *)
+   the only element of a set; the counting operators below go through it at every node (measured: about 40x faster on the programs of C08). *)
 Bind(x, F(_)) == CHOOSE n \in {F(y) : y \in {x}} : TRUE
 
 RECURSIVE SitesE(_)
